@@ -598,7 +598,10 @@ func VerifC14_Delayed() {
 		for k := 0; k < n; k++ {
 			path := paths[npath]
 			npath++
-			switch verifChoose("request.kind", 4) {
+			switch verifChoose("request.kind", 5) {
+			case 4: // an empty file: answered at once, with no content
+				round = append(round, verifReq{cmd: "smudge", path: path, canDelay: true})
+				expect[path] = exp{false, ""}
 			case 0: // an object the server has, not local: delayed
 				j := verifChoose("remote.object", 2)
 				ptr := lfs.NewPointer(remoteOid[j], int64(len(remote[j])), nil).Encoded()
@@ -656,7 +659,11 @@ func VerifC14_Delayed() {
 				verifAssert(len(a) == 1 && a[0] == "S:delayed", "a blob that must be downloaded is answered with status=delayed and nothing else")
 			} else {
 				verifCover("immediate")
-				verifAssert(len(a) == 4 && a[0] == "S:success" && a[1] == "C:"+e.content && a[2] == "F:" && a[3] == "S:success", "other blobs are answered at once: status, content, flush, status")
+				if e.content == "" {
+					verifAssert(len(a) == 3 && a[0] == "S:success" && a[1] == "F:" && a[2] == "S:success", "an empty blob is answered at once: status, (no content,) flush, status")
+				} else {
+					verifAssert(len(a) == 4 && a[0] == "S:success" && a[1] == "C:"+e.content && a[2] == "F:" && a[3] == "S:success", "other blobs are answered at once: status, content, flush, status")
+				}
 			}
 		case r.cmd == "list_available_blobs":
 			verifAssert(len(a) == 2 && strings.HasPrefix(a[0], "L:") && a[1] == "S:success", "list_available_blobs answers a list and status=success")
